@@ -41,10 +41,58 @@ def det_pass(genmode, seed, count, label, lines_fn=None):
         return vcheck.corr_pass(chk, "det", reqs, label, engine=lambda c, ls: impl, oracle_filter=vcheck.tag_filter(TAGS), view=view, nontrivial=lambda r, i: True)
     return p
 
+def reg_pass(seed, count, label, lines_fn=None):
+    """registration histories through the REAL session API of beff-wasm (the `beff_verif` hook, as C14 uses it): every file of a
+    split project is absent at first and is registered (created) in a random order, with rebuilds in between; every rebuild must
+    be what a fresh session produces for the files registered so far — "different orders in which files are read, registered or
+    imported" at the level of the long-lived session, where resolutions and parsed modules are cached."""
+    import random, re
+    def transform(lines):
+        rnd = random.Random(seed)
+        out = []
+        for l in lines:
+            try:
+                sx = vcheck.sx_parse(l)
+                files = sx[2][1:]
+                names, specs = [], []
+                for f in files:
+                    name = f[1][1]
+                    vs = [v for v in f[2:] if v[1][1] != "@@ABSENT@@"]
+                    if not vs: continue
+                    names.append(name)
+                    specs.append(["file", f[1], ["var", ("s", "@@ABSENT@@"), ["src"]], vs[0]])
+                order = names[:]; rnd.shuffle(order)
+                ops = []
+                seen_entry = False
+                for n in order:
+                    ops.append(["u", ("s", n), "1"])
+                    seen_entry = seen_entry or n == "entry.ts"
+                    # (no rebuild before the entry point exists: what the tool does without one is not part of the model)
+                    if seen_entry and rnd.random() < 0.6: ops.append(["r"])
+                # a second round: the importing files are saved again (their contents did not change)
+                if rnd.random() < 0.5:
+                    for n in rnd.sample(order, max(1, len(order) // 2)):
+                        ops.append(["u", ("s", n), "1"])
+                ops.append(["r"])
+                out.append(vcheck.sx_show(["watch", sx[1], ["files"] + specs, ["ops"] + ops]))
+            except Exception:
+                continue
+        return out
+    def engine(c, ls):
+        res, rc, err = c.run_impl("watch", ls)
+        return [r.replace("c14.history", "c10.registration-history") for r in res]
+    def p(chk):
+        lines = lines_fn(chk) if lines_fn else transform(chk.gen_js("prog-watch", seed, count))
+        chk.coverage.setdefault("registration_histories", []).append({"label": label, "requests": len(lines)})
+        return vcheck.corr_pass(chk, "watch", lines, label, engine=engine, oracle_filter=vcheck.tag_filter(TAGS),
+                                view=lambda r: re.sub(r' "[0-9a-f]{16}"', "", r), nontrivial=lambda r, i: True)
+    return p
+
 RULE = ("projects from the C04 generator (valid, erroneous, textually mutated and two-file projects with named/type-only/renamed/namespace/missing imports, cycles, export *) and "
         "the C09 split generator when present. Each project is compiled by the REAL parse_and_bind+extract+emit_code (a) twice in one thread (every std HashMap instance gets a "
         "fresh SipHash key), (b) in fresh threads with reversed / random file registration orders, (c) again in a second OS process; code bytes and serialized diagnostics must be "
-        "identical (compared as text in-process, as FNV-64 digests across processes). Tie: outcome class vs the Lean compiler model")
+        "identical (compared as text in-process, as FNV-64 digests across processes). Tie: outcome class vs the Lean compiler model. A last pass drives the long-lived SESSION of beff-wasm "
+        "(hook `beff_verif`): the files of a split project are registered in random orders with rebuilds in between, every rebuild against a fresh session on the same files")
 
 def run(chk):
     chk.build_rust(); chk.build_js()
@@ -54,6 +102,7 @@ def run(chk):
     import os
     if os.path.exists(os.path.join(vcheck.VERIF, "checks", "c09.py")):
         passes.append(det_pass("prog-split", chk.seed * 100 + 33, 1500 if quick else 12000, "det(split)"))
+    passes.append(reg_pass(chk.seed * 100 + 34, 600 if quick else 6000, "registration(session)"))
     return vcheck.generic_run(chk, MODULES, AUDIT, passes,
         ["C10: tools/translate/hash_iter.py (regex inventory of iterations over HashMap/HashSet-typed names, of process-dependent sources — time, random, env, thread ids, pointer "
          "addresses — in beff-core and beff-wasm; test modules cut by brace counting); the justification column of Model/Emit.lean `knownSites` is prose",
@@ -68,6 +117,10 @@ def run(chk):
 def replay(chk, path):
     chk.build_rust(); chk.build_lean(MODULES)
     lines = [l for l in open(path).read().split("\n") if l.strip() and not l.startswith(";")]
+    if lines and lines[0].startswith("(watch "):
+        st = reg_pass(0, 0, "registration(replay)", lines_fn=lambda c: lines)(chk)
+        print(st)
+        return chk.finish("proof", {"evaluations": len(lines), "distinct_nontrivial": st["nontrivial"]})
     st = det_pass(None, 0, 0, "det(replay)", lines_fn=lambda c: lines)(chk)
     print(st)
     return chk.finish("proof", {"evaluations": len(lines), "distinct_nontrivial": st["nontrivial"]})
